@@ -32,3 +32,13 @@ void rng_push(std::uint32_t v);
 void rng_clear_queue();
 std::uint64_t rng_draws();
 }  // namespace vclock
+
+namespace vclock {
+// RAII: frozen clock + deterministic random_device for the duration of one case.
+struct Frozen {
+    explicit Frozen(std::uint64_t rng = 1) { freeze(); rng_seed(rng); }
+    ~Frozen() { unfreeze(); rng_real(); }
+    Frozen(const Frozen&) = delete;
+    Frozen& operator=(const Frozen&) = delete;
+};
+}  // namespace vclock
